@@ -189,22 +189,76 @@ the case panic, exit or crash.  One signature per panic site.  Part B: no reques
 structure MSt where
   partB : Bool := false
   accepted : Bool := false
-  rulesObj : Bool := false     -- the configuration under test is a `RulesBasedSampler: {…}` mapping (from the builder ops)
-  nullCond : Bool := false     -- … and one of its `Conditions:` sequences has a null element
+  -- the input class of the rules file under test, read off the builder ops (inputs of the case, not model state)
+  rulesObj : Bool := false     -- the entry is a `RulesBasedSampler: {…}` mapping
+  topSampler : Bool := false   -- the entry is a mapping under the name of a sampler type
+  emptyName : Bool := false    -- some FieldList / Fields sequence contains ""
+  detZero : Bool := false      -- a DeterministicSampler.SampleRate that is 0 modulo 2^32
+  negRate : Bool := false      -- a negative DynamicSampler.SampleRate / EMADynamicSampler.GoalSampleRate / EMAThroughputSampler.InitialSampleRate
+  subMs : Bool := false        -- an EMAThroughputSampler.AdjustmentInterval that is not 0 and below 1 ms
+  negDur : Bool := false       -- a negative duration
+  nullRule : Bool := false     -- `Rules:` has a null element
+  nullCond : Bool := false     -- some `Conditions:` has a null element
+  openDowns : Nat := 0         -- rules whose `Sampler:` mapping is (still) empty
 
-/-- one signature per panic site; where two sites give the same runtime error the configuration
-that was built (an input of the case, not model state) tells them apart -/
+def hasEmptyStr : Val → Bool
+  | .list l => l.any (fun e => e == .str "")
+  | _ => false
+
+def isNegInt : Option Val → Bool
+  | some (.int i) => decide (i < 0)
+  | _ => false
+
+/-- fold the scalar keys of a sampler mapping `g` into the input class -/
+def scanSampler (m : MSt) (g : String) (f : Fields) : MSt :=
+  let m := { m with emptyName := m.emptyName || (match f.lookup "FieldList" with | some v => hasEmptyStr v | none => false) }
+  let m := { m with negDur := m.negDur || f.any (fun kv => match kv.2 with | .dur n => decide (n < 0) | _ => false) }
+  let m := if g == "DeterministicSampler" then
+      { m with detZero := m.detZero || (match f.lookup "SampleRate" with | some (.int i) => decide (i % 4294967296 = 0) | _ => false) }
+    else m
+  let m := if g == "DynamicSampler" then { m with negRate := m.negRate || isNegInt (f.lookup "SampleRate") } else m
+  let m := if g == "EMADynamicSampler" then { m with negRate := m.negRate || isNegInt (f.lookup "GoalSampleRate") } else m
+  if g == "EMAThroughputSampler" then
+    { m with negRate := m.negRate || isNegInt (f.lookup "InitialSampleRate"),
+             subMs := m.subMs || (match f.lookup "AdjustmentInterval" with | some (.dur n) => decide (n ≠ 0 ∧ n < millisecond) | _ => false) }
+  else m
+
+def resetClass (m : MSt) : MSt :=
+  { partB := m.partB, accepted := m.accepted }
+
+def classOf (m : MSt) (op : List String) : MSt :=
+  match op with
+  | "leaf" :: g :: sh :: rest =>
+    scanSampler { resetClass m with topSampler := sh == "obj" && leafNames.contains g } g (parseFields rest).1
+  | "rules" :: sh :: _ => { resetClass m with rulesObj := sh == "obj", topSampler := sh == "obj" }
+  | "rule" :: sh :: rest =>
+    let fl := (parseFields rest).2
+    { m with nullRule := m.nullRule || sh == "null", openDowns := m.openDowns + (if flag fl "sampler" then 1 else 0) }
+  | "cond" :: sh :: rest =>
+    let f := (parseFields rest).1
+    { m with nullCond := m.nullCond || sh == "null",
+             emptyName := m.emptyName || (match f.lookup "Fields" with | some v => hasEmptyStr v | none => false) }
+  | "down" :: g :: _ :: rest => scanSampler { m with openDowns := m.openDowns - 1 } g (parseFields rest).1
+  | _ => m
+
+/-- One signature per panic site *and* input class: a crash of a known kind is attributed to the
+known finding only when the rules file belongs to that finding's input class and the crash shows
+in the phase where that site runs; anything else gets a signature of its own. -/
 def siteSig (m : MSt) (phase : String) (obs : String) : Option String :=
   let cls := (obs.splitOn " ").headD ""
-  if cls == "panic:index" then some "C28:getkeyfields-empty-field-name"
-  else if cls == "panic:divzero" then some "C28:deterministic-samplerate-zero-mod-2^32"
-  else if cls == "panic:intn" then some "C28:intn-negative-dynsampler-rate"
-  else if cls == "panic:nilmap" then some "C28:emathroughput-start-error-dropped-nil-map"
+  let early := phase == "reqkeys" || phase == "start"
+  let other := some s!"C28:{cls}-outside-known-input-class:{phase}"
+  if cls == "panic:index" then (if m.emptyName && early then some "C28:getkeyfields-empty-field-name" else other)
+  else if cls == "panic:divzero" then (if m.detZero && phase == "start" then some "C28:deterministic-samplerate-zero-mod-2^32" else other)
+  else if cls == "panic:intn" then (if m.negRate && phase == "eval" then some "C28:intn-negative-dynsampler-rate" else other)
+  else if cls == "panic:nilmap" then (if m.subMs && phase == "eval" then some "C28:emathroughput-start-error-dropped-nil-map" else other)
   else if cls == "panic:nilptr" then
-    some (if m.nullCond then "C28:rules-null-condition-nil-dereference" else "C28:rules-null-rule-nil-dereference")
+    (if m.nullCond && early then some "C28:rules-null-condition-nil-dereference"
+     else if m.nullRule && phase == "start" then some "C28:rules-null-rule-nil-dereference" else other)
   else if cls == "exit" then
-    some (if m.rulesObj then "C28:empty-downstream-sampler-os-exit" else "C28:no-sampler-configured-os-exit")
-  else if cls == "crash:ticker" then some "C28:newticker-non-positive-interval"
+    (if phase == "start" && !m.topSampler then some "C28:no-sampler-configured-os-exit"
+     else if phase == "start" && m.rulesObj && m.openDowns > 0 then some "C28:empty-downstream-sampler-os-exit" else other)
+  else if cls == "crash:ticker" then (if m.negDur && phase == "start" then some "C28:newticker-non-positive-interval" else other)
   else if cls.startsWith "panic" || cls.startsWith "crash" || cls.startsWith "child" then some s!"C28:{phase}-unclassified-crash"
   else none
 
@@ -237,9 +291,7 @@ def mon (m : MSt) (op : List String) (_ : List (List String)) (obs : Option Stri
     | _ => (m, [])
   else
     match op with
-    | "leaf" :: _ => ({ m with rulesObj := false, nullCond := false }, [])
-    | "rules" :: sh :: _ => ({ m with rulesObj := sh == "obj", nullCond := false }, [])
-    | "cond" :: "null" :: _ => ({ m with nullCond := true }, [])
+    | "leaf" :: _ | "rules" :: _ | "rule" :: _ | "cond" :: _ | "down" :: _ => (classOf m op, [])
     | ["load"] | ["loadfile"] =>
       if o.startsWith "panic" then
         ({ m with accepted := false }, [{ prop := "C28", sig := "C28:loader-panic", what := s!"the loader/validator itself panicked: {o}" }])
